@@ -218,7 +218,7 @@ def run_unit(unit, tier="quick", dev=False, only=None):
             for (rel, mod, contract) in unit["appends"]:
                 filters += ["--harness", f"{mod}::"]
         jobs = str(os.environ.get("VPV_JOBS") or unit.get("jobs", 16))
-        ht = unit.get("harness_timeout", 600)
+        ht = int(os.environ.get("VPV_HT") or unit.get("harness_timeout", 600))
         cmd = ["cargo", "kani", "-Z", "function-contracts", "-Z", "stubbing", "-Z", "unstable-options", "--harness-timeout", f"{ht}s"] + \
               unit.get("kani_args", []) + filters + ["-j", jobs, "--output-format", "terse"]
         meta["kani_cmd"] = "cd <scratch>/crates/%s && %s" % (unit["crate"], " ".join(cmd))
@@ -277,7 +277,7 @@ def run_unit(unit, tier="quick", dev=False, only=None):
             for o in new[: unit.get("max_replays", 8)]:
                 pf += ["--harness", o.harness]
             cmd2 = ["cargo", "kani", "-Z", "function-contracts", "-Z", "stubbing", "-Z", "concrete-playback", "-Z", "unstable-options",
-                    "--harness-timeout", f"{unit.get('harness_timeout', 600)}s",
+                    "--harness-timeout", f"{int(os.environ.get('VPV_HT') or unit.get('harness_timeout', 600))}s",
                     "--concrete-playback=print", "--exact"] + unit.get("kani_args", []) + pf + ["--output-format", "terse"]
             rc2, out2 = sh(cmd2, cwd=crate_dir, timeout=unit.get("timeout", 1800))
             if dev:
